@@ -281,7 +281,18 @@ func (o *Origins) compute(v ssa.Value, depth int) *Term {
 				return l
 			}
 		}
-		return &Term{Op: "op", Name: "slice", Args: []*Term{o.of(x.X, depth+1)}}
+		if x.Low == nil && x.High == nil {
+			return &Term{Op: "op", Name: "slice", Args: []*Term{o.of(x.X, depth+1)}}
+		}
+		// x[lo:hi] with an explicit bound: slice(x, lo, hi), an omitted bound printed as nil
+		lo, hi := opaque("nil"), opaque("nil")
+		if x.Low != nil {
+			lo = o.of(x.Low, depth+1)
+		}
+		if x.High != nil {
+			hi = o.of(x.High, depth+1)
+		}
+		return &Term{Op: "op", Name: "slice", Args: []*Term{o.of(x.X, depth+1), lo, hi}}
 	case *ssa.UnOp:
 		switch x.Op {
 		case token.MUL:
